@@ -12,6 +12,7 @@ var checks = map[string]func(*lib.Run){
 	"C01": lib.CheckC01,
 	"C02": lib.CheckC02,
 	"C03": lib.CheckC03,
+	"C06": lib.CheckC06,
 	"C11": lib.CheckC11,
 	"C16": lib.CheckC16,
 	"C17": lib.CheckC17,
